@@ -5,8 +5,10 @@ import (
 	"fmt"
 	"math/rand/v2"
 	"os"
+	"runtime"
 	"strings"
 	"testing"
+	"time"
 
 	"github.com/AdguardTeam/golibs/cache"
 
@@ -90,6 +92,10 @@ const (
 	cbNil = iota
 	cbRecord
 	cbReenter
+	// the callback fails on its first call: it panics (the caller of Set recovers) ...
+	cbPanic
+	// ... or ends its goroutine (runtime.Goexit, which is what t.Fatal does inside a callback)
+	cbGoexit
 )
 
 type conf struct {
@@ -122,6 +128,11 @@ type runner struct {
 	evals  int64
 	evicts int64
 	reent  int64
+	// callback faults
+	faulted bool // the callback has failed once
+	post    bool // after the fault the model is no longer consulted
+	done    bool
+	faults  int64
 }
 
 func (r *runner) failf(format string, a ...any) {
@@ -151,7 +162,24 @@ func (r *runner) apply(o op) {
 		key := []byte(k)
 		existed := r.m.find(k) >= 0
 		r.m.BeginSet(k, v)
-		ret := r.c.Set(key, v)
+		var ret bool
+		if r.h.Conf.CB >= cbPanic && !r.faulted {
+			completed := false
+			fin := make(chan struct{})
+			go func() {
+				defer close(fin)
+				defer func() { _ = recover() }()
+				ret = r.c.Set(key, v)
+				completed = true
+			}()
+			<-fin
+			if !completed {
+				r.afterFault(k)
+				return
+			}
+		} else {
+			ret = r.c.Set(key, v)
+		}
 		snap := cache.VerifInspect(r.c)
 		if r.h.Conf.CB == cbNil && r.m.lru && uint(len(k)+len(v)) <= r.m.maxElem {
 			r.inferEvictions(k, ret, existed, snap)
@@ -231,9 +259,48 @@ func sameSlice(a, b []byte) bool {
 	return len(a) == 0 || &a[0] == &b[0]
 }
 
+// afterFault: the callback of an evicting Set has failed and the caller has dealt with that.  The statement says
+// nothing about what that Set leaves behind, but the cache is still a cache: every further call returns (the
+// stage's watchdog restates that as bounded progress), nothing panics, the structure is intact and within bounds.
+func (r *runner) afterFault(k string) {
+	r.post = true
+	r.log = append(r.log, "  (the caller of Set has recovered)")
+	step := func(name string, f func()) {
+		if r.fail != "" {
+			return
+		}
+		r.log = append(r.log, name)
+		if p, v := mon.Catch(f); p {
+			r.failf("%s after a failed OnDelete callback panicked: %v", name, v)
+		}
+		r.evals++
+	}
+	var st cache.Stats
+	step("Stats()", func() { st = r.c.Stats() })
+	step("Get", func() { _ = r.c.Get([]byte(k)) })
+	step("Set(new key)", func() { _ = r.c.Set([]byte("zz"), []byte("v")) })
+	step("Del", func() { r.c.Del([]byte(k)) })
+	step("Stats()", func() { st = r.c.Stats() })
+	if r.fail == "" {
+		snap := cache.VerifInspect(r.c)
+		if len(snap.Problems) > 0 {
+			r.failf("after a failed OnDelete callback: %s", strings.Join(snap.Problems, "; "))
+		} else if uint(st.Count) > r.m.maxCount || uint(st.Size) > r.m.maxSize {
+			r.failf("after a failed OnDelete callback Stats() = %+v exceeds MaxCount %d / MaxSize %d", st, r.m.maxCount, r.m.maxSize)
+		}
+	}
+	step("Clear()", func() { r.c.Clear() })
+	step("Stats()", func() {
+		if st = r.c.Stats(); st.Count != 0 || st.Size != 0 {
+			r.failf("after a failed OnDelete callback and Clear(), Stats() = %+v", st)
+		}
+	})
+	r.done = true
+}
+
 // onDelete is the monitored callback.
 func (r *runner) onDelete(key, val []byte) {
-	if r.fail != "" {
+	if r.fail != "" || r.post {
 		return
 	}
 	r.evicts++
@@ -241,6 +308,16 @@ func (r *runner) onDelete(key, val []byte) {
 	if w := r.m.Evicted(string(key), val); w != "" {
 		r.failf("%s", w)
 		return
+	}
+	if r.h.Conf.CB >= cbPanic {
+		r.faulted = true
+		r.faults++
+		if r.h.Conf.CB == cbPanic {
+			r.log = append(r.log, "  the callback panics")
+			panic("verif: OnDelete failure")
+		}
+		r.log = append(r.log, "  the callback calls runtime.Goexit")
+		runtime.Goexit()
 	}
 	if r.h.Conf.CB != cbReenter || r.depth >= 2 {
 		return
@@ -354,7 +431,7 @@ func run(h history) *runner {
 		}
 		for _, o := range h.Ops {
 			r.apply(o)
-			if r.fail != "" {
+			if r.fail != "" || r.done {
 				break
 			}
 		}
@@ -410,7 +487,7 @@ func TestModel(t *testing.T) {
 		history
 		Cursors []string `json:"cursors"`
 	}
-	if ok, err := mon.ReplayCase(stageName, &rc); ok {
+	if ok, err := mon.ReplayCase(strings.TrimSuffix(stageName, "-hangcheck"), &rc); ok {
 		if err != nil {
 			t.Fatal(err)
 		}
@@ -439,6 +516,12 @@ func TestModel(t *testing.T) {
 		}
 		return
 	}
+	// bounded progress: a call that does not return (a mutex left locked) ends the process with the history in
+	// hang.json; the driver re-runs that history alone
+	r.Watchdog(20*time.Second, func(cur string) any {
+		h, _ := decode(cur)
+		return h
+	})
 	cfgs := configs()
 	al := opAlphabet()
 	r.Note("configurations", len(cfgs))
@@ -532,6 +615,40 @@ func TestModel(t *testing.T) {
 		r.Count("evictions_observed", ev)
 		r.Count("reentrant_calls", re)
 	})
+	// (2b) a callback that fails: LRU configurations with bounds, the callback panics or ends its goroutine on its
+	// first call; the rest of the history checks that the cache still answers
+	{
+		var fcfgs []conf
+		for _, c := range cfgs {
+			if c.LRU && c.CB == cbRecord && (c.MaxCount != 0 || c.MaxSize != 0) {
+				fcfgs = append(fcfgs, conf{c.MaxSize, c.MaxElem, c.MaxCount, true, cbPanic}, conf{c.MaxSize, c.MaxElem, c.MaxCount, true, cbGoexit})
+			}
+		}
+		fwalks := r.Pick(6, 300)
+		mon.ParallelEach(len(fcfgs), func(w, ci int) {
+			var e, f int64
+			rng := r.Rand(uint64(29000 + ci))
+			for k := 0; k < fwalks; k++ {
+				h := history{Conf: fcfgs[ci], CBSeed: rng.Uint64()}
+				for j := 0; j < 25; j++ {
+					o := al[rng.IntN(len(al))]
+					if rng.IntN(2) == 0 {
+						o = op{opSet, rng.IntN(nBase), 1 + rng.IntN(nBase-1)}
+					}
+					h.Ops = append(h.Ops, o)
+				}
+				rr := runW(w, h)
+				e += rr.evals
+				f += rr.faults
+				if rr.fail != "" {
+					h.Ops = h.Ops[:countTop(rr.log)]
+					report(r, h, rr)
+				}
+			}
+			r.Eval(e)
+			r.Count("histories_with_a_failing_callback", f)
+		})
+	}
 	// (3) large configurations: dozens of live entries, values of kilobytes, long usage lists
 	lcfgs := largeConfigs()
 	lwalks := r.Pick(6, 200)
